@@ -43,6 +43,11 @@ func expElvis(tree *ParserT) error {
 		return expElvisRightValue(tree, rightNode)
 	}
 
+	if left.ExitNum > 0 {
+		// a non-zero exit is falsy everywhere else (`if`, `!`, `&&`, `||`)
+		return expElvisRightValue(tree, rightNode)
+	}
+
 	v, err := types.ConvertGoType(left.Value, types.Boolean)
 	if err != nil {
 		return expElvisRightValue(tree, rightNode)
